@@ -204,6 +204,7 @@ func runC16(c *fw.Ctx) {
 	}})
 	defer verifhook.Set(nil)
 
+	abandoned := false
 	rounds := c.Pick(6, 60)
 	gcounts := []int{2, 8, 32, 128}
 	interleavings := map[uint64]bool{}
@@ -213,6 +214,9 @@ func runC16(c *fw.Ctx) {
 			G = 32
 		}
 		id := fmt.Sprintf("round:%d/G=%d", round, G)
+		if abandoned {
+			break
+		}
 		c.Case(id, func() {
 			c.Observe("goroutine_counts", fmt.Sprint(G))
 			sharedLazy := goast.New()
@@ -279,7 +283,30 @@ func runC16(c *fw.Ctx) {
 				}(g)
 			}
 			close(start)
-			wg.Wait()
+			finished := make(chan struct{})
+			go func() { wg.Wait(); close(finished) }()
+			select {
+			case <-finished:
+			case <-time.After(time.Duration(c.Pick(90, 300)) * time.Second):
+				// No verdict from the clock alone: look at the runtime state. A goroutine of this
+				// round that sits in sync.(*Mutex).Lock under a dave/dst frame while no hook event
+				// has been produced for a further interval and no goroutine is inside the critical
+				// section is blocked for good (the lock was left held): every call queued behind it
+				// will never return, let alone "equal the call made alone".
+				ev0 := atomic.LoadInt64(&events)
+				dump0 := goroutineDump()
+				time.Sleep(5 * time.Second)
+				ev1 := atomic.LoadInt64(&events)
+				dump1 := goroutineDump()
+				b0, b1 := blockedInDstLock(dump0), blockedInDstLock(dump1)
+				if ev0 == ev1 && len(b1) > 0 && len(b0) == len(b1) && !strings.Contains(dump1, "goast.(*DecoratorResolver).imports.func") {
+					c.Violate("blocked-forever", "blocked-forever:"+b1[0], fmt.Sprintf("%s: %d goroutine(s) are blocked in a dave/dst lock and nothing makes progress (no hook event in 5 s, nobody inside the critical section); first blocked stack:\n%s", id, len(b1), firstBlockedStack(dump1)), "")
+				} else {
+					c.Count("inconclusive_round_did_not_finish", 1)
+				}
+				abandoned = true
+				return
+			}
 			overlap := atomic.LoadInt64(&maxOverlap)
 			c.Max("overlapping_resolver_calls", overlap)
 			hmu.Lock()
@@ -325,6 +352,9 @@ func runC16(c *fw.Ctx) {
 	c.Count("hook_events", atomic.LoadInt64(&events))
 	c.Count("distinct_interleavings", int64(len(interleavings)))
 
+	if abandoned {
+		return
+	}
 	// determinism under map iteration order: equal calls in fresh decorators / restorers
 	for i, ref := range refs {
 		id := "repeat:" + ref.name
@@ -384,4 +414,49 @@ func c16Lazy(ref *c16Ref, rr guess.RestorerResolver) {
 	if err != nil {
 		ref.lazyErr = err.Error()
 	}
+}
+
+func goroutineDump() string {
+	buf := make([]byte, 8<<20)
+	n := runtime.Stack(buf, true)
+	return string(buf[:n])
+}
+
+// blockedInDstLock returns the innermost dave/dst function of every goroutine that is waiting in
+// sync.(*Mutex).Lock below a dave/dst frame.
+func blockedInDstLock(dump string) []string {
+	var out []string
+	for _, g := range strings.Split(dump, "\n\n") {
+		if !strings.Contains(g, "sync.(*Mutex).Lock") || !strings.Contains(g, "github.com/dave/dst") {
+			continue
+		}
+		fn := ""
+		for _, l := range strings.Split(g, "\n") {
+			if strings.HasPrefix(l, "github.com/dave/dst") {
+				fn = l
+				if i := strings.Index(fn, "("); i > 0 {
+					// keep receiver type, drop arguments
+					if j := strings.LastIndex(fn, "("); j > i {
+						fn = fn[:j]
+					}
+				}
+				break
+			}
+		}
+		out = append(out, strings.TrimPrefix(fn, "github.com/dave/dst"))
+	}
+	sort.Strings(out)
+	return out
+}
+
+func firstBlockedStack(dump string) string {
+	for _, g := range strings.Split(dump, "\n\n") {
+		if strings.Contains(g, "sync.(*Mutex).Lock") && strings.Contains(g, "github.com/dave/dst") {
+			if len(g) > 1800 {
+				g = g[:1800]
+			}
+			return g
+		}
+	}
+	return ""
 }
